@@ -554,7 +554,11 @@ pub fn c05_case(subject: &dyn Subject, input: &[u8], spec: &Spec) -> Option<(Str
         let class: String = msg.chars().take_while(|c| !c.is_ascii_digit()).take(40).collect();
         return Some((format!("panic/{}/{}", loc, class.trim().replace(' ', "-")), format!("panicked: {msg} @ {loc}")));
     }
-    let allowed = HEAP_FACTOR * consumed + HEAP_SLACK + spec.chunk.unwrap_or(16 << 10) * 4;
+    // subjects that also renumber what was parsed (parse -> Aig -> eight renumbering runs with their
+    // literal maps and hash tables) hold a larger, still constant, multiple of the input: a binary
+    // and gate is two input bytes and about 150 bytes of graph, map and stack entries
+    let factor = if subject.name().contains("-renumber") { 4 * HEAP_FACTOR } else { HEAP_FACTOR };
+    let allowed = factor * consumed + HEAP_SLACK + spec.chunk.unwrap_or(16 << 10) * 4;
     if peak > allowed {
         return Some(("heap".to_string(), format!("peak requested heap {peak} bytes (largest single request {largest}) after consuming {consumed} input bytes; bound {allowed}")));
     }
